@@ -32,6 +32,7 @@ type blk struct {
 	ID      uid   `json:"id"`
 	Res     int64 `json:"res"`
 	Label   int   `json:"label"` // external label set number
+	Level   int   `json:"level,omitempty"` // Compaction.Level
 	Sources []uid `json:"sources"`
 }
 
@@ -65,7 +66,7 @@ func sortULIDs(us []ulid.ULID) {
 	sort.Slice(us, func(i, j int) bool { return us[i].Compare(us[j]) < 0 })
 }
 
-// tie T: the two decisions of the sort.Slice comparator in filterGroup
+// tie T: the decisions of the sort.Slice comparator in filterGroup
 func facts(repo string, w io.Writer) error {
 	s, err := common.ParseSrc(repo, "pkg/block/fetcher.go")
 	if err != nil {
@@ -76,61 +77,96 @@ func facts(repo string, w io.Writer) error {
 		return err
 	}
 	var rets []*ast.ReturnStmt
+	var ifs []*ast.IfStmt
 	ast.Inspect(fd.Body, func(n ast.Node) bool {
-		if r, ok := n.(*ast.ReturnStmt); ok && len(r.Results) == 1 {
-			rets = append(rets, r)
-		}
-		return true
-	})
-	if len(rets) != 2 {
-		return fmt.Errorf("srcfacts: filterGroup: expected the comparator's two return statements, found %d", len(rets))
-	}
-	// return metaSlice[i].ULID.Compare(metaSlice[j].ULID) < 0
-	txt := s.ExprString(rets[0].Results[0])
-	const call = "metaSlice[i].ULID.Compare(metaSlice[j].ULID)"
-	if !strings.Contains(txt, call) {
-		return fmt.Errorf("srcfacts: filterGroup: tie-break is not on %s: %s", call, txt)
-	}
-	e, err := parser.ParseExpr(strings.ReplaceAll(txt, call, "cmp"))
-	if err != nil {
-		return err
-	}
-	c, err := s.TranslateExpr(e, nil, nil)
-	if err != nil {
-		return err
-	}
-	fmt.Fprintln(w, "(* pkg/block/fetcher.go filterGroup comparator, equal source counts: cmp = ULID_i.Compare(ULID_j) *)")
-	fmt.Fprintf(w, "Definition filterGroup_ulid_first (cmp : Z) : bool :=\n  %s.\n", c)
-	// return ilen-jlen > 0
-	c, err = s.TranslateExpr(rets[1].Results[0], nil, nil)
-	if err != nil {
-		return err
-	}
-	fmt.Fprintln(w, "(* filterGroup comparator, different source counts *)")
-	fmt.Fprintf(w, "Definition filterGroup_len_first (ilen jlen : Z) : bool :=\n  %s.\n", c)
-	// the equality test that selects between them
-	ifs := 0
-	var cond ast.Expr
-	ast.Inspect(fd.Body, func(n ast.Node) bool {
-		if is, ok := n.(*ast.IfStmt); ok && is.Else == nil {
-			if len(is.Body.List) == 1 {
-				if _, ok := is.Body.List[0].(*ast.ReturnStmt); ok {
-					ifs++
-					cond = is.Cond
+		switch x := n.(type) {
+		case *ast.ReturnStmt:
+			if len(x.Results) == 1 {
+				rets = append(rets, x)
+			}
+		case *ast.IfStmt:
+			// the comparator's ifs are those whose body ends in a return
+			if x.Else == nil && len(x.Body.List) > 0 {
+				if _, ok := x.Body.List[len(x.Body.List)-1].(*ast.ReturnStmt); ok {
+					ifs = append(ifs, x)
 				}
 			}
 		}
 		return true
 	})
-	if ifs != 1 {
-		return fmt.Errorf("srcfacts: filterGroup: expected one `if ... { return }` in the comparator, found %d", ifs)
+	const call = "metaSlice[i].ULID.Compare(metaSlice[j].ULID)"
+	var ulidE, lenE, lvlE, tieE, lvlCond string
+	for _, r := range rets {
+		txt := s.ExprString(r.Results[0])
+		switch {
+		case strings.Contains(txt, call):
+			e, err := parser.ParseExpr(strings.ReplaceAll(txt, call, "cmp"))
+			if err != nil {
+				return err
+			}
+			if ulidE, err = s.TranslateExpr(e, nil, nil); err != nil {
+				return err
+			}
+		case strings.Contains(txt, "ilvl"):
+			if lvlE, err = s.TranslateExpr(r.Results[0], nil, nil); err != nil {
+				return err
+			}
+		case strings.Contains(txt, "ilen"):
+			if lenE, err = s.TranslateExpr(r.Results[0], nil, nil); err != nil {
+				return err
+			}
+		default:
+			return fmt.Errorf("srcfacts: filterGroup: unexpected return in the comparator: %s", txt)
+		}
 	}
-	c, err = s.TranslateExpr(cond, nil, nil)
-	if err != nil {
-		return err
+	for _, is := range ifs {
+		txt := s.ExprString(is.Cond)
+		switch {
+		case strings.Contains(txt, "ilen"):
+			if tieE, err = s.TranslateExpr(is.Cond, nil, nil); err != nil {
+				return err
+			}
+		case strings.Contains(txt, "ilvl"):
+			if lvlCond, err = s.TranslateExpr(is.Cond, nil, nil); err != nil {
+				return err
+			}
+		default:
+			return fmt.Errorf("srcfacts: filterGroup: unexpected if in the comparator: %s", txt)
+		}
 	}
-	fmt.Fprintln(w, "(* filterGroup comparator: when the ULID tie-break applies *)")
-	fmt.Fprintf(w, "Definition filterGroup_tie (ilen jlen : Z) : bool :=\n  %s.\n", c)
+	if ulidE == "" || lenE == "" || tieE == "" || (lvlE == "") != (lvlCond == "") {
+		return fmt.Errorf("srcfacts: filterGroup: comparator shape not recognised (ulid=%q len=%q tie=%q level=%q/%q)", ulidE, lenE, tieE, lvlCond, lvlE)
+	}
+	if lvlE != "" {
+		// the level test must sit inside the tie branch, before the ULID comparison
+		okShape := false
+		for _, is := range ifs {
+			if strings.Contains(s.ExprString(is.Cond), "ilen") {
+				for _, st := range is.Body.List {
+					if in, ok := st.(*ast.IfStmt); ok && strings.Contains(s.ExprString(in.Cond), "ilvl") {
+						okShape = true
+					}
+				}
+			}
+		}
+		if !okShape {
+			return fmt.Errorf("srcfacts: filterGroup: the compaction-level test is not inside the equal-source-count branch")
+		}
+	}
+	fmt.Fprintln(w, "(* pkg/block/fetcher.go filterGroup comparator, equal source counts: cmp = ULID_i.Compare(ULID_j) *)")
+	fmt.Fprintf(w, "Definition filterGroup_ulid_first (cmp : Z) : bool :=\n  %s.\n", ulidE)
+	fmt.Fprintln(w, "(* filterGroup comparator, different source counts *)")
+	fmt.Fprintf(w, "Definition filterGroup_len_first (ilen jlen : Z) : bool :=\n  %s.\n", lenE)
+	fmt.Fprintln(w, "(* filterGroup comparator: when the tie-breaks apply *)")
+	fmt.Fprintf(w, "Definition filterGroup_tie (ilen jlen : Z) : bool :=\n  %s.\n", tieE)
+	if lvlE == "" {
+		lvlCond, lvlE = "false", "false"
+		fmt.Fprintln(w, "(* filterGroup comparator: no compaction-level tie-break in this source tree *)")
+	} else {
+		fmt.Fprintln(w, "(* filterGroup comparator, equal source counts: the compaction levels decide when they differ *)")
+	}
+	fmt.Fprintf(w, "Definition filterGroup_level_differs (ilvl jlvl : Z) : bool :=\n  %s.\n", lvlCond)
+	fmt.Fprintf(w, "Definition filterGroup_level_first (ilvl jlvl : Z) : bool :=\n  %s.\n", lvlE)
 	return nil
 }
 
@@ -147,6 +183,7 @@ func run(raw json.RawMessage) (common.Case, error) {
 			m.Version = 1
 			m.ULID = b.ID.ulid()
 			m.Thanos.Downsample.Resolution = b.Res
+			m.Compaction.Level = b.Level
 			m.Thanos.Labels = map[string]string{"cluster": fmt.Sprintf("c%d", b.Label)}
 			for _, s := range b.Sources {
 				m.Compaction.Sources = append(m.Compaction.Sources, s.ulid())
@@ -175,7 +212,7 @@ func run(raw json.RawMessage) (common.Case, error) {
 		for _, s := range b.Sources {
 			ss = append(ss, s.ulid())
 		}
-		bs = append(bs, common.App("mk_blk", zOf(id), common.Z(keys[k]), zList(ss)))
+		bs = append(bs, common.App("mk_blk", zOf(id), common.Z(keys[k]), zList(ss), common.Z(int64(b.Level))))
 	}
 	type res struct {
 		Conc int      `json:"conc"`
@@ -258,6 +295,7 @@ func gen(r *rand.Rand, tier string, n int) []any {
 			g := r.Intn(ngroups)
 			b.Label = g % 2
 			b.Res = []int64{0, 300000, 3600000}[g/2%3]
+			b.Level = 1 + r.Intn(3)
 			switch k := r.Intn(10); {
 			case k < 2:
 				b.Sources = []uid{b.ID}
